@@ -59,7 +59,7 @@ func jsonMain(e *Env, id string) (*res.Result, error) {
 	specs := collect(e, "JSON"+id, n, func(t *rapid.T) PkgSpec {
 		c := specgen.NewCtx(t, disabled)
 		c.NeedClient = id == "C07"
-		c.JSONTimeLayouts = id == "C06"
+		c.JSONTimeLayouts = id == "C06" || id == "C07"
 		d := c.JSONDoc()
 		return PkgSpec{Doc: d, Cfg: inproc.Config{DoNotEdit: true, Client: id == "C07"}, Meta: map[string]any{"tags": tagList(c.Tags), "excluded": c.Excluded}}
 	})
